@@ -1132,7 +1132,7 @@ func runBundleStream(o *Opts) {
 	sink := NewSink(o.Out, "bundle", "Corr.RunBundle",
 		"cases: random scripted worlds (1-4 remote packages over 6 addresses incl. query strings, shared contents, 0-2 registry packages with 1-5 versions incl. pre-releases and metadata-only duplicates, 1-2 finders, remote/registry/relative dependencies incl. self references, cycles and escaping relative paths, warnings with file names, 8 allowed-version sets) x 1-5 Add calls (+ repeated Adds, use after Close); ~15% of worlds have scripted failures; each fault-free world is rebuilt under permutations of its Add calls; non-trivial = at least one dependency discovered or registry hop; distinct by hash of (world, ops)",
 		60)
-	n := 260 * o.Scale
+	n := 500 * o.Scale
 	if o.Tier == "thorough" {
 		n = 6000 * o.Scale
 	}
